@@ -13,12 +13,13 @@ META = {
     'functions': ['xrspatial.classify.' + f for f in ('binary', '_cpu_binary', 'reclassify', '_cpu_bin', '_bin', 'quantile', '_run_quantile', 'equal_interval',
                                                       '_run_equal_interval', 'natural_breaks', '_run_natural_break', '_run_jenks', '_run_numpy_jenks_matrices')],
     'bounds': {'quick': 'reclassify: every bin count 1..6, bins symbolic strictly ascending, value symbolic (NaN/+-inf allowed), new values symbolic; binary: <=3 listed values, '
-                        'cells NaN/inf/finite, float and int dtypes; equal_interval / quantile: rasters of 3 and 4 cells (NaN allowed), k in {2,3}; natural_breaks: 3 and 4 cells, k=2',
+                        'cells NaN/inf/finite, float and int dtypes; equal_interval / quantile: rasters of 3 and 4 cells (NaN allowed), k in {2,3}; natural_breaks: 3 and 4 cells, k=2; NOT symbolic: equal_interval on 144 small integer ranges x k in {2,3,5,7} executed with real float arithmetic (enumeration of the np.arange overshoot / last-cut rounding cases that exact reals cannot reach)',
                'thorough': 'reclassify up to 8 bins; equal_interval / quantile 5 cells k in {2,3,4}; natural_breaks 5 cells k in {2,3}'},
     'stubs': ['numba.jit = identity', 'np.percentile = sorting network + linear interpolation', 'np.unique / sort = forking insertion sort', 'print / warnings = no-op'],
     'outside': ['single-precision rounding of break values (the guards bins[-1] = max exist for floats; in exact arithmetic they are not needed, so a mutant deleting them is invisible here)',
-                'np.arange overshoot branch (dead under exact arithmetic)', 'natural_breaks sampling branch (num_sample < size)', 'rasters with fewer than two distinct finite values for equal_interval'],
+                'np.arange overshoot branch for symbolic inputs (dead under exact arithmetic; executed only by the concrete landmark sweep, which is enumeration and not a solver verdict)', 'natural_breaks sampling branch (num_sample < size)', 'rasters with fewer than two distinct finite values for equal_interval'],
     'assumptions': ['exact real arithmetic', 'at least two distinct finite values (equal_interval), at least k distinct finite values (natural_breaks optimality)'],
+    'technique': 'solver-based bounded symbolic execution of the real Python source (z3), counterexample replay on the real build; float-rounding-only cases of equal_interval additionally by a concrete landmark sweep (enumeration, not a solver verdict)',
     'budget_s': {'quick': 200, 'thorough': 1500},
 }
 
